@@ -66,13 +66,22 @@ def classify_vmslot(line):
     ghosts = sorted(set(k for k in kids if k not in in_stream))
     if not ghosts:
         return None
+    causes = set()
     for g in ghosts:
         tc = [i for i, t in enumerate(toks) if t.startswith('tc') and t.split(',')[1] == g]
+        ins = [i for i, t in enumerate(toks) if t.startswith('i' + g + ',')]
         de = [i for i, t in enumerate(toks) if t == 'd' + g]
         fr = [i for i, t in enumerate(toks) if t == 'f' + g]
-        if not (tc and de and tc[0] < de[-1] and not [x for x in fr if x > de[-1]]):
+        if not de or [x for x in fr if x > de[-1]]:
             return None
-    return 'ghost-after-delete-of-temp-copied-attached-slot'
+        if tc and tc[0] < de[-1]:
+            causes.add('ghost-after-delete-of-temp-copied-attached-slot')
+        elif ins and ins[-1] < de[-1] and not any(t.startswith('P') for t in toks[ins[-1]:de[-1]]):
+            # INSERT never enters the new slot in the slot map; deleted again before the rule ends, collectGarbage cannot see it (F24)
+            causes.add('ghost-after-delete-of-slot-inserted-by-the-same-rule')
+        else:
+            return None
+    return sorted(causes)[0] if len(causes) == 1 else None
 
 
 def run_vmslot(chk, pid, n):
